@@ -79,11 +79,19 @@ def yielding_storage(nameserver):
     return _YS["cls"]
 
 
+RUNS = [0]
+
+
 def run_once(nameserver, errors, chooser, scen, tfilter, dbdir=None):
     log = []
 
     def main():
         sc = S.CUR
+        # the name server object is made, in turn, under every server type the process may be configured with (its operations are
+        # called from several threads whatever the transport is: oneway calls, an embedding application, the auto-cleaner)
+        from Pyro5 import config
+        RUNS[0] += 1
+        config.SERVERTYPE = ("thread", "multiplex")[RUNS[0] % 2]
         if dbdir:
             db = os.path.join(dbdir, "lin.sqlite")
             if os.path.exists(db):
